@@ -3,7 +3,11 @@
 //! usage: sim_io <C05|C12|C15> [--tier quick|thorough] [--runs N] [--seed S] [--workers W]
 //!        sim_io <id> --replay <file>
 
+mod c12;
 mod c15;
+mod dump;
+mod simreader;
+mod zoo;
 
 use simcore::{harness_error, Args};
 
@@ -12,6 +16,7 @@ fn main() {
     simcore::panics::install_hook();
     let rc = match args.positional(0) {
         Some("C15") => c15::main(&args),
+        Some("C12") => c12::main(&args),
         other => harness_error(&format!("sim_io: unknown property {other:?}")),
     };
     std::process::exit(rc);
